@@ -29,6 +29,9 @@ type C17Scn struct {
 	N      int     `json:"n"`      // 2 or 3 nodes in a chain
 	Rounds int     `json:"rounds"` // the op list is executed this many times on the same mesh (1..3)
 	Ops    []C17Op `json:"ops"`
+	// Persist: one stream listener on the second node stays open through all rounds (everything else is closed at the end of each
+	// round): what a finished connection leaves behind on a listener that lives on shows up as growth from round to round
+	Persist bool `json:"persist,omitempty"`
 }
 
 type c17Sock struct {
@@ -129,6 +132,16 @@ func execC17(b []byte) vx.Verdict {
 		v := vx.Violation("close-returns", sig, "%s did not return within 20 s; receptor/quic goroutines by top frame: %v", what, tops)
 		return &v
 	}
+	// opGuard: opening a socket or listener and pinging must return as well (a node whose internal locks are held by a wedged
+	// goroutine shows here first)
+	opGuard := func(what string, f func()) *vx.Verdict {
+		if vx.WithDeadline(25*time.Second, f) {
+			return nil
+		}
+		_, tops := receptorGoroutines()
+		v := vx.Violation("operations-return", "C17/op-blocked:"+what, "%s did not return within 25 s; receptor/quic goroutines by top frame: %v", what, tops)
+		return &v
+	}
 	registry := func(n *netceptor.Netceptor) []string {
 		var keys []string
 		done := vx.WithDeadline(5*time.Second, func() {
@@ -144,6 +157,7 @@ func execC17(b []byte) vx.Verdict {
 		sort.Strings(keys)
 		return keys
 	}
+	var keepLis *c17Lis // the listener that stays open through all rounds (Persist)
 	// settle: registries equal the model; returns residue description by class
 	settle := func(final bool) *vx.Verdict {
 		var residue map[string][]string
@@ -160,6 +174,9 @@ func execC17(b []byte) vx.Verdict {
 					if l.node == nm {
 						want[l.name] = "listener"
 					}
+				}
+				if keepLis != nil && keepLis.node == nm {
+					want[keepLis.name] = "listener"
 				}
 				for _, d := range dials {
 					if d.node == nm {
@@ -222,6 +239,13 @@ func execC17(b []byte) vx.Verdict {
 					mode = int(buf[0])
 				}
 				_, _ = c.Write(buf[:n])
+				if mode == 5 && n == 1 && buf[0] == 'c' {
+					// the dialler has told its stream to stop being sent to (CancelRead); the acceptor now closes its side the
+					// ordinary way - Close only, as workceptor does for remote work
+					time.Sleep(20 * time.Millisecond)
+					_ = c.Close()
+					return
+				}
 				if mode == 2 {
 					// the acceptor ends the connection first
 					time.Sleep(20 * time.Millisecond)
@@ -268,6 +292,27 @@ func execC17(b []byte) vx.Verdict {
 		}
 		lis = nil
 	}
+	if s.Persist {
+		n := node(1)
+		li, err := n.Listen("keep", nil)
+		if err != nil {
+			return vx.Inconclusive("persistent listener: %v", err)
+		}
+		keepLis = &c17Lis{n.NodeID(), "keep", li}
+		go func() {
+			for {
+				c, err := li.Accept()
+				if err != nil {
+					if strings.Contains(err.Error(), "listener closed") {
+						return
+					}
+					continue
+				}
+				go echoHandler(c.(*netceptor.Conn))
+			}
+		}()
+		labels = append(labels, "persistent-listener")
+	}
 	for round := 0; round < s.Rounds && verdict == nil; round++ {
 		for oi, op := range s.Ops {
 			if verdict != nil {
@@ -288,10 +333,15 @@ func execC17(b []byte) vx.Verdict {
 				}
 				var pc netceptor.PacketConner
 				var err error
-				if op.C%2 == 1 {
-					pc, err = n.ListenPacketAndAdvertise(name, map[string]string{"t": "x"})
-				} else {
-					pc, err = n.ListenPacket(name)
+				if v := opGuard("ListenPacket", func() {
+					if op.C%2 == 1 {
+						pc, err = n.ListenPacketAndAdvertise(name, map[string]string{"t": "x"})
+					} else {
+						pc, err = n.ListenPacket(name)
+					}
+				}); v != nil {
+					verdict = v
+					continue
 				}
 				if err != nil {
 					v := vx.Violation("reopen", "C17/name-not-reusable", "round %d op %d: ListenPacket(%s) on %s failed although the name is free in the model: %v", round, oi, name, n.NodeID(), err)
@@ -417,7 +467,12 @@ func execC17(b []byte) vx.Verdict {
 				n := node(op.A)
 				ctr++
 				name := fmt.Sprintf("l%d", ctr) // a fresh name every time (see DESIGN: re-listening on a just-closed stream service)
-				li, err := n.Listen(name, nil)
+				var li *netceptor.Listener
+				var err error
+				if v := opGuard("Listen", func() { li, err = n.Listen(name, nil) }); v != nil {
+					verdict = v
+					continue
+				}
 				if err != nil {
 					v := vx.Violation("listen", "C17/listen-failed", "Listen(%s) on %s: %v", name, n.NodeID(), err)
 					verdict = &v
@@ -447,15 +502,19 @@ func execC17(b []byte) vx.Verdict {
 				verdict = guarded("Listener.Close", func() { _ = l.li.Close() })
 				labels = append(labels, "listener-close")
 			case "dial":
-				if len(lis) == 0 {
+				cands := lis
+				if keepLis != nil {
+					cands = append([]*c17Lis{keepLis, keepLis}, lis...) // the listener that lives on takes most of the connections
+				}
+				if len(cands) == 0 {
 					continue
 				}
-				l := lis[op.B%len(lis)]
+				l := cands[op.B%len(cands)]
 				from := node(op.A)
 				if from.NodeID() == l.node {
 					from = node(op.A + 1)
 				}
-				mode := op.C % 5
+				mode := op.C % 6
 				ctx, cancel := context.WithTimeout(context.Background(), 30*time.Second)
 				var conn *netceptor.Conn
 				var err error
@@ -499,6 +558,13 @@ func execC17(b []byte) vx.Verdict {
 					closedDials = append(closedDials, d)
 				case 4:
 					dials = append(dials, d)
+				case 5: // the dialler cancels reading (STOP_SENDING reaches the acceptor), the acceptor closes, then the dialler
+					conn.CancelRead()
+					_, _ = conn.Write([]byte{'c'})
+					time.Sleep(150 * time.Millisecond)
+					verdict = guarded("Conn.Close+CloseConnection(after CancelRead)", func() { _ = conn.Close(); _ = conn.CloseConnection() })
+					closedDials = append(closedDials, d)
+					closedFromBothSides = true
 				}
 				labels = append(labels, fmt.Sprintf("dial-mode-%d", mode))
 			case "dialbad":
@@ -535,13 +601,13 @@ func execC17(b []byte) vx.Verdict {
 				ctx, cancel := context.WithTimeout(context.Background(), 5*time.Second)
 				switch op.B % 3 {
 				case 0:
-					vx.WithDeadline(20*time.Second, func() { _, _, _ = from.Ping(ctx, node(op.A+1).NodeID(), 10) })
+					verdict = opGuard("Ping", func() { _, _, _ = from.Ping(ctx, node(op.A+1).NodeID(), 10) })
 				case 1:
-					vx.WithDeadline(20*time.Second, func() { _, _, _ = from.Ping(ctx, "no-such-node", 10) })
+					verdict = opGuard("Ping(unknown node)", func() { _, _, _ = from.Ping(ctx, "no-such-node", 10) })
 				case 2:
 					cctx, ccancel := context.WithCancel(ctx)
 					ccancel()
-					vx.WithDeadline(20*time.Second, func() { _, _, _ = from.Ping(cctx, node(op.A+1).NodeID(), 10) })
+					verdict = opGuard("Ping(cancelled)", func() { _, _, _ = from.Ping(cctx, node(op.A+1).NodeID(), 10) })
 				}
 				cancel()
 				labels = append(labels, "ping")
@@ -583,6 +649,9 @@ func execC17(b []byte) vx.Verdict {
 			v := vx.Violation("no-growth", sig, "receptor/quic goroutines after each round (everything closed at the end of every round): %v; growth by top frame between round 1 and the last: %v", goroutinesAfter, grown)
 			verdict = &v
 		}
+	}
+	if keepLis != nil && verdict == nil {
+		verdict = guarded("Listener.Close", func() { _ = keepLis.li.Close() })
 	}
 	// ---- shutdown stops all background activity
 	if verdict == nil {
